@@ -790,6 +790,11 @@ theorem handleChallenge_B (c : Cfg) (src : Addr) (nonce cd enrSeq : Nat) :
   · unfold removeExpected
     rw [wp_bind, wp_modS, wp_bind]
     exact (failRequest_B c call0 _ _).wp h (fun _ _ h' => h')
+  rw [wp_ite]
+  refine ⟨fun _ => ?_, fun _ => ?_⟩
+  · unfold removeExpected
+    rw [wp_bind, wp_modS, wp_bind]
+    exact (failRequest_B c call0 _ _).wp h (fun _ _ h' => h')
   unfold freshEph freshNonce activeInsert send freshRid
   cr_wpsimp
   split
@@ -1851,6 +1856,11 @@ theorem handleChallenge_C (c : Cfg) (H0 : Hist) (src : Addr) (nonce cd enrSeq : 
   rw [wp_ite]
   refine ⟨fun _ => ?_, fun _ => ?_⟩
   · unfold activeInsert; cr_wpsimp; exact CI.act_append h0 _ hc0
+  rw [wp_ite]
+  refine ⟨fun _ => ?_, fun _ => ?_⟩
+  · unfold removeExpected
+    rw [wp_bind, wp_modS, wp_bind]
+    exact (failRequest_C c [] H0 call0 _ _).wp h0 (fun _ _ h' => h')
   rw [wp_ite]
   refine ⟨fun _ => ?_, fun _ => ?_⟩
   · unfold removeExpected
